@@ -171,7 +171,8 @@ def decide(prop, tier, seed=0, use_cache=True, out=sys.stdout):
                     violations.append({"name": name, "kind": "kani-check", "class": "semantic", "engine": "kani", "harness": h, "message": fc["desc"],
                                        "src_file": fc["file"], "src_line": fc["line"], "fn": fc["fn"], "level": cfg["harnesses"][h].get("level")})
     have_kani_cex = any(v["engine"] == "kani" for v in violations)
-    twin_ok = bool(twin_names) and all(((twin_res or {}).get("harnesses", {}).get(h) or kres["harnesses"].get(h) or {}).get("status") == "success" for h in twin_names)
+    vouching = [h for h in twin_names if not cfg["harnesses"][h].get("expected")]   # harnesses kept to report a known finding cannot vouch
+    twin_ok = bool(vouching) and all(((twin_res or {}).get("harnesses", {}).get(h) or kres["harnesses"].get(h) or {}).get("status") == "success" for h in vouching)
     # functions exercised by twin harnesses that succeeded on this tree
     covered = set()
     for h in twin_names:
